@@ -38,6 +38,7 @@ def self_field(t, name):
 
 def rule_guard_extent(rep, prog, eff):
     n = 0
+    direct_new = {}
     for adt in ACC:
         for nm, ctor in (("ptr_guard", "PtrGuard::read"), ("ptr_guard_mut", "PtrGuardMut::write")):
             for b in prog.find(adt=adt, name=nm):
@@ -49,6 +50,12 @@ def rule_guard_extent(rep, prog, eff):
                 c = cs[0]
                 a = [eff.inline(x) for x in c.args()]
                 mm, addr, ln = a[0], a[1], a[-1]
+                if canon(c.target or "").endswith("PtrGuard::new") and len(a) == 4:
+                    # the read / write wrappers merged into the accessor: the protection flag is checked here instead
+                    want_flag = 1 if nm == "ptr_guard_mut" else 0
+                    rep("R17.1.plumbing", b.key, deep_strip(a[2]) == ('const', want_flag), b.where(c.line),
+                        f"calls PtrGuard::new(.., write = {tstr(a[2])}, ..) directly; {nm} needs write = {bool(want_flag)}")
+                    direct_new[nm] = direct_new.get(nm, 0) + 1
                 short = adt.split("::")[-1]
                 if short == "VolatileSlice":
                     ok = self_field(ln, "size")
@@ -74,6 +81,8 @@ def rule_guard_extent(rep, prog, eff):
     # plumbing
     for nm, flag in (("read", 0), ("write", 1)):
         adt = "volatile_memory::PtrGuard" if nm == "read" else "volatile_memory::PtrGuardMut"
+        if not prog.find(adt=adt, name=nm) and direct_new.get("ptr_guard" if nm == "read" else "ptr_guard_mut"):
+            n += 1      # the wrapper no longer exists: its one job (the protection flag) is checked at every guard site above
         for b in prog.find(adt=adt, name=nm):
             n += 1
             cs = [c for c in b.calls() if canon(c.target or "").endswith("PtrGuard::new")]
